@@ -6,7 +6,7 @@ from gsa import selftest
 vid, props = sys.argv[1], sys.argv[2:]
 m = [x for x in json.load(open(os.path.join(selftest.VERIF, "selftest", "mutants.json"))) if x["id"] == vid][0]
 m = dict(m, prop=props or m["prop"])
-root = os.path.join(os.environ.get("TMPDIR", "/tmp"), "gsa-dev-0")
+root = os.path.join(os.environ.get("TMPDIR", "/tmp"), "gsa-dev-%s" % os.environ.get("GSA_DEV", "0"))
 selftest.make_scratch(root)
 r = selftest.run_mutant(m, root)
 print(r[1], r[2][:3000])
